@@ -102,4 +102,16 @@ bound XR, as read after syncing, has Ready=True. Otherwise Waiting. -/
 def claimReady (xrReadyStatus : Option String) : Cond :=
   if xrReadyStatus = some "True" then available else ⟨"Ready", "False", "Waiting"⟩
 
+/-- xr.GetCondition(t): the stored condition, or an Unknown one when absent -/
+def getCond (cs : List Cond) (t : String) : Cond :=
+  (cs.find? (·.type = t)).getD ⟨t, "Unknown", ""⟩
+
+/-- The tail of the claim Reconcile after a successful Sync (claim/reconciler.go): Synced is
+set, the XR's claimConditionTypes are copied, then Ready is Available iff the XR read
+after syncing is Ready=True, else Waiting. -/
+def claimReconcile (old : List Cond) (xrConds : List Cond) (claimTypes : List String) : List Cond :=
+  let c1 := setCond old reconcileSuccess
+  let c2 := claimTypes.foldl (fun acc t => setCond acc (getCond xrConds t)) c1
+  setCond c2 (claimReady (statusOf xrConds "Ready"))
+
 end Xp.C05
